@@ -12,5 +12,6 @@ INVARIANT ShardNeverOverwrites
 INVARIANT AbsentOrNew
 INVARIANT ReturnsClean
 INVARIANT MapsReleasedBeforeReplace
+INVARIANT BystandersUntouched
 INVARIANT EmitEnd
 CHECK_DEADLOCK FALSE
